@@ -1,17 +1,19 @@
 ------------------------------ MODULE MC_Knock ------------------------------
-(* C20: interleaved bursts from 1..3 sources; one quiet period at the end. *)
+(* C20: interleaved bursts from 1..3 sources, two of them behind one gateway (same source
+   hardware address on the wire); one quiet period at the end. *)
 EXTENDS Integers, Sequences, FiniteSets, TLC, Json
 CONSTANTS Devs, NProbes, Sim
 VARIABLES groups, reports, sent, hist, phase
 
-K == INSTANCE Knock WITH Sources <- {"s1", "s2", "s3"}, Deviations <- Devs
+ViaMap == [s \in {"s1", "s2", "s3"} |-> IF s = "s3" THEN "own" ELSE "gw"]
+K == INSTANCE Knock WITH Sources <- {"s1", "s2", "s3"}, Deviations <- Devs, Via <- ViaMap
 
 Init == K!Init /\ hist = <<>> /\ phase = "burst"
 ProbeStep == /\ phase = "burst" /\ Len(hist) < NProbes
              /\ \E s \in {"s1", "s2", "s3"}, pr \in {"tcp", "udp", "icmp"}, po \in {0, 1000, 1001} :
                   /\ (pr = "icmp" <=> po = 0)
                   /\ K!Probe([src |-> s, proto |-> pr, port |-> po])
-                  /\ hist' = Append(hist, [src |-> s, proto |-> pr, port |-> po])
+                  /\ hist' = Append(hist, [src |-> s, via |-> ViaMap[s], proto |-> pr, port |-> po])
              /\ UNCHANGED phase
 Quiet1 == /\ phase = "burst" /\ Len(hist) >= (IF Sim THEN NProbes ELSE 1) /\ K!Tick /\ phase' = "ticked" /\ UNCHANGED hist
 Quiet2 == /\ phase = "ticked" /\ groups # <<>> /\ K!Tick /\ UNCHANGED <<hist, phase>>
